@@ -52,6 +52,8 @@ CONSTANTS MaxPre, MaxN, PreAlphabet, Accs, Posts, FlowKinds, Drivers, Bufs,
 SkipFirst == <<Slice(1, None, 1)>>
 InnerSeqs == {RunIfSeq("lt2", SkipFirst), RunIfSeq("all", <<Slice(0, 1, 1)>>), RunIfSeq("even", <<Reverse>>),
               RunIfSeq("all", <<LagK(1)>>), RunIfSeq("lt2", <<Map("inc"), Slice(0, 1, 1)>>), RunIfSeq("all", <<Reverse, LastK(1)>>)}
+Composed == {SFilter("not_even"), SFilter("and_even_lt2"), SFilter("or_even_lt2"), SFilter("not_or"), SFilter("and_not"),
+             SFilter("roe"), SFilter("not_roe")}
 AllSlices == {Slice(a, b, s) : a \in 0..3, b \in (0..3) \cup {None}, s \in 1..2}
 CtxSel == {CFilter("odd", "str"), CFilter("variable", "fn"), CFilter("t", "str"), CFilter("odd", "fn"),
            CRunIf("odd", "inc"), CRunIf("variable", "drop"), CRunIf("t", "dbl")}
@@ -59,11 +61,11 @@ AlphaQuick == CtxSel \cup {Map("tag"), Map("inc"), Map("var"), Filter("even"), F
                Slice(0, 0, 1), RunIf("even", "inc"), RunIf("lt2", "drop")}
 AlphaMid == AlphaQuick \cup {Map("dbl"), Map("tag"), Filter("lt2"), Slice(2, 3, 1), Slice(0, 3, 2), Slice(3, None, 1),
                              RunIf("all", "dbl")}
-AlphaFull == AlphaMid \cup AllSlices \cup InnerSeqs \cup {VarAttr("all"), RunIfDup("odd"), RunIfDup("variable"), VarAttr("run"), VarAttr("fill"), VarAttr("compute"), VarAttr("request"),
+AlphaFull == AlphaMid \cup AllSlices \cup InnerSeqs \cup Composed \cup {NMap("none_odd"), NMap("none_all"), NMap("zero_odd"), VarAttr("all"), RunIfDup("odd"), RunIfDup("variable"), VarAttr("run"), VarAttr("fill"), VarAttr("compute"), VarAttr("request"),
               VarAttr("fill_into"), Map("upd"), Filter("all"), RunIf("even", "drop")}
-AlphaSmall == {Map("inc"), VarAttr("all"), Filter("even"), Slice(0, 2, 1), Slice(1, 3, 2), RunIfSeq("lt2", SkipFirst),
-               CFilter("odd", "str"), CFilter("variable", "fn"), RunIfDup("odd")}
-AlphaThorough == AlphaSmall \cup {RunIf("lt2", "drop"), RunIfSeq("all", <<Slice(0, 1, 1)>>), CRunIf("odd", "inc"), Map("var"), VarAttr("fill"), Map("tag"), CFilter("t", "str")}
+AlphaSmall == {Map("inc"), VarAttr("all"), SFilter("not_even"), Slice(0, 2, 1), Slice(1, 3, 2), RunIfSeq("lt2", SkipFirst),
+               CFilter("odd", "str"), SFilter("not_roe"), RunIfDup("odd"), NMap("none_odd")}
+AlphaThorough == AlphaSmall \cup {Filter("even"), CFilter("variable", "fn"), NMap("zero_odd"), SFilter("and_not"), RunIf("lt2", "drop"), RunIfSeq("all", <<Slice(0, 1, 1)>>), CRunIf("odd", "inc"), Map("var"), VarAttr("fill"), Map("tag"), CFilter("t", "str")}
 AlphaDeep == {Map("inc"), Map("var"), Filter("even"), Slice(0, 2, 1), RunIfSeq("all", <<Slice(0, 1, 1)>>), CFilter("odd", "str"), RunIfDup("odd")}
 PostsSmall == {<<>>, <<Map("inc")>>, <<Sum>>}
 AccsSmall == {"sum", "store1"}
@@ -77,7 +79,7 @@ AccsAll == {"sum", "store1", "last", "cnt", "sumrun"}
 RECURSIVE Pres(_)
 Pres(n) == IF n = 0 THEN {<<>>}
            ELSE LET P == Pres(n - 1) IN P \cup {Append(p, x) : p \in {y \in P : Len(y) = n - 1}, x \in PreAlphabet}
-Chains == {[pre |-> p, acc |-> a, post |-> q] : p \in Pres(MaxPre), a \in Accs, q \in Posts}
+Chains == {c \in {[pre |-> p, acc |-> a, post |-> q] : p \in Pres(MaxPre), a \in Accs, q \in Posts} : WellTyped(c)}
 BufAll == (1..(MaxN + 1)) \cup {1000, None}
 
 VARIABLES ch, N, fk, drv, bs, place,   \* scenario
